@@ -94,6 +94,14 @@ let () =
       let obs = obs_table f.(5) in
       let get k = try Hashtbl.find obs k with Not_found -> "-" in
       incr cases; incr lineno;
+      (* SPEC: no entry point ever panics *)
+      Hashtbl.iter (fun k v -> if v = "p" && k <> "bval" && k <> "bsimple" && k <> "bring" then
+                       fail id "SPEC" "no_panic" (trunc (Printf.sprintf "%s panicked on %s" k gtxt))) obs;
+      if cls = "huge_polys" then begin
+        (* products of ordinates overflow in float64: only "error or nil, no crash" is observed *)
+        count ("class_" ^ cls); count ("huge_val_" ^ get "val");
+        note_case gtxt true
+      end else
       let g = parse_geom gtxt in
       note_case gtxt (nonempty g);
       count ("class_" ^ cls); count ("variant_" ^ variant);
